@@ -10,7 +10,7 @@
 //!      values, which the typing judgement (R1) accepts at the requested types,
 //!  (c) no unwinding, no abort (stack overflow / allocation failure), termination within 5 s,
 //!  (d) under a depth/size-limited configuration the number of nested choice nodes
-//!      (`opt` that is present, variant) is at most 3*limit + the type's own acyclic
+//!      (`opt` that is present, variant) is at most limit + 1 + the type's own acyclic
 //!      choice depth (soft bound; vectors are governed by `width`, not by depth),
 //!  (e) the same (seed, config, types) twice gives the same result.
 //!
@@ -60,6 +60,32 @@ fn prefixes() -> &'static Vec<Vec<u8>> {
         v.push(vec![0x01; 200]);
         v.push(vec![0xff; 200]);
         v.push((0..64).map(|i| if i % 2 == 0 { 0x01 } else { 0xff }).collect());
+        // every periodic seed of period 2 and 3 over the alphabet (96 bytes), the byte ramp up and down, and
+        // sixteen fixed dense seeds of 256 bytes from a linear congruential sequence (a fixed, enumerated
+        // part of the seed alphabet: the generator's weighted choices need mixed bytes to keep recursing)
+        for a in SEED_ALPHABET {
+            for b in SEED_ALPHABET {
+                if a != b {
+                    v.push((0..96).map(|i| if i % 2 == 0 { a } else { b }).collect());
+                }
+                for c in SEED_ALPHABET {
+                    if !(a == b && b == c) {
+                        v.push((0..96).map(|i| [a, b, c][i % 3]).collect());
+                    }
+                }
+            }
+        }
+        v.push((0..=255u8).collect());
+        v.push((0..=255u8).rev().collect());
+        let mut x: u64 = 0x2545_f491_4f6c_dd1d;
+        for _ in 0..16 {
+            let mut sd = Vec::with_capacity(256);
+            for _ in 0..256 {
+                x = x.wrapping_mul(6364136223846793005).wrapping_add(1442695040888963407);
+                sd.push((x >> 33) as u8);
+            }
+            v.push(sd);
+        }
         v
     })
 }
@@ -140,6 +166,16 @@ fn merged_recursive_env() -> (Env, Vec<Ty>) {
         env = env.merge_disjoint(&e);
         roots.push(r);
     }
+    // a recursive variant whose base case and step both mention one finite named type (twice in all):
+    // the generator's size estimate walks named types with a `seen` set
+    // (rQ mentions the named type rK twice, side by side)
+    let q = Ty::record(vec![(0, Ty::var("rK")), (1, Ty::var("rK"))]);
+    let path = Ty::variant(vec![(0, Ty::var("rQ")), (1, Ty::record(vec![(0, Ty::var("rQ")), (1, Ty::var("rP"))]))]);
+    // the same with the recursive alternative listed first (alternatives are visited in id order)
+    let path2 = Ty::variant(vec![(0, Ty::record(vec![(0, Ty::var("rQ")), (1, Ty::var("rP2"))])), (1, Ty::var("rQ"))]);
+    env = env.merge_disjoint(&Env::from(vec![("rK", p(P::Int16)), ("rQ", q), ("rP", path), ("rP2", path2)]));
+    roots.push(Ty::var("rP"));
+    roots.push(Ty::var("rP2"));
     (env, roots)
 }
 
@@ -185,7 +221,7 @@ fn configs() -> Vec<Cfg> {
     };
     add("default", String::new(), None);
     add("random={}", "[random]\n".into(), None);
-    let vars = ["rL", "rN", "rT", "rA", "rR", "t", "a"];
+    let vars = ["rL", "rN", "rT", "rA", "rR", "rP", "rP2", "t", "a"];
     for key in ["depth", "size"] {
         let vals: &[i64] = if key == "depth" { &[0, 1, 4] } else { &[0, 1, 5] };
         for d in vals {
@@ -910,7 +946,10 @@ fn exec_case(u: &UnitCtx, seed: &[u8], acc: &mut Acc) {
                         acc.max(format!("{}|max_choice_depth", u.lit.config_name), rd);
                         if let Some(lim) = u.lim {
                             for (v, c) in vals.iter().zip(&u.cdepth) {
-                                let bound = 3 * lim.max(0) as u64 + c;
+                                // within the configured depth: the limit itself, the choices the type makes before it
+                                // can recurse at all, and one level of slack (the unchanged tree stays at or below
+                                // max(limit, acyclic depth) on every run of every tier)
+                                let bound = lim.max(0) as u64 + c + 1;
                                 let r = rdepth(v);
                                 let at = u.lit.config_name.rsplit('@').next().unwrap_or("?").to_string();
                                 if r > bound && at == "root" {
@@ -921,7 +960,7 @@ fn exec_case(u: &UnitCtx, seed: &[u8], acc: &mut Acc) {
                                     fails.push((
                                         format!("size-bound:limit-set-at-{}", u.lit.config_name.rsplit('@').next().unwrap_or("?")),
                                         format!(
-                                            "configuration limits depth/size to {lim}, the type's acyclic choice depth is {c}, but the value {v} nests {r} choice nodes (> 3*{}+{c})",
+                                            "configuration limits depth/size to {lim}, the type's acyclic choice depth is {c}, but the value {v} nests {r} choice nodes (> {}+{c}+1)",
                                             lim.max(0)
                                         ),
                                     ));
@@ -1526,11 +1565,11 @@ fn main() {
     let code = finish(
         &ctx,
         rep,
-        "run = (type environment, argument type list, configuration TOML + scope, entropy bytes); every run executes candid_parser::random::any twice in a worker process on a 8 MiB-stack thread under a 5 s watchdog. Families: A = every type list (arity 0; all depth<=1 types over 11 leaves with opt/vec/record{[],[0],[0,1]}/variant{[],[0],[0,1]}; func/service references; 5 recursive environments as t, opt t, vec t, record{t;t}; 12x12 pairs) x default configuration; B = reduced type lists (36) x every configuration (default, depth/size at root/argument/definition selectors, width, range incl. reversed and full i64, text kinds, value lists matching and mismatching, malformed, scoped tables with 5 scopes); C (thorough) = every type list x every configuration; E = text-bearing lists (text, opt text, vec text, func, record{text;nat8}, (text,text)) x 10 text/width configurations x seeds = one of 3 fixed 8-byte prefixes followed by every enumerated byte string (text draws 8 bytes before anything else, so only these seeds reach the character generators); F = the recursive lists x 12 depth/size configurations (at argument/label, definition and root selectors) x seeds = one of 8 long prefixes (64 equal bytes of each alphabet byte, 200 x 01, 200 x ff, 64 alternating 01/ff) followed by every byte string of length <= 1 (enough entropy to keep choosing the recursive alternative; the configured limit must still bound the nesting); D = uninhabited/infinitely recursive definitions (t=record{t}, variant{0:t}, vec t, opt t, mutual records, record{nat;t}; as t, opt t, vec t, (nat,t), (t,nat)) x 3 (quick) / 6 (thorough) configurations, each input announced so that a dead worker identifies it. Seeds: ALL byte strings over {00,01,7f,80,ff} up to the family's length. Non-trivial = runs that returned Ok(values) (then clauses a,b,d,e are evaluated); Err runs are checked for determinism only.",
+        "run = (type environment, argument type list, configuration TOML + scope, entropy bytes); every run executes candid_parser::random::any twice in a worker process on a 8 MiB-stack thread under a 5 s watchdog. Families: A = every type list (arity 0; all depth<=1 types over 11 leaves with opt/vec/record{[],[0],[0,1]}/variant{[],[0],[0,1]}; func/service references; 5 recursive environments as t, opt t, vec t, record{t;t}; 12x12 pairs) x default configuration; B = reduced type lists (36) x every configuration (default, depth/size at root/argument/definition selectors, width, range incl. reversed and full i64, text kinds, value lists matching and mismatching, malformed, scoped tables with 5 scopes); C (thorough) = every type list x every configuration; E = text-bearing lists (text, opt text, vec text, func, record{text;nat8}, (text,text)) x 10 text/width configurations x seeds = one of 3 fixed 8-byte prefixes followed by every enumerated byte string (text draws 8 bytes before anything else, so only these seeds reach the character generators); F = the recursive lists x 12 depth/size configurations (at argument/label, definition and root selectors) x seeds = one of the long prefixes (64 equal bytes of each alphabet byte, 200 x 01, 200 x ff, every periodic sequence of period 2 and 3 over the alphabet, the byte ramp up and down, sixteen fixed dense 256-byte sequences) followed by every byte string of length <= 1 (enough entropy to keep choosing the recursive alternative; the configured limit must still bound the nesting); D = uninhabited/infinitely recursive definitions (t=record{t}, variant{0:t}, vec t, opt t, mutual records, record{nat;t}; as t, opt t, vec t, (nat,t), (t,nat)) x 3 (quick) / 6 (thorough) configurations, each input announced so that a dead worker identifies it. Seeds: ALL byte strings over {00,01,7f,80,ff} up to the family's length. Non-trivial = runs that returned Ok(values) (then clauses a,b,d,e are evaluated); Err runs are checked for determinism only.",
         &[
             "the generator has no source of nondeterminism besides the entropy slice (fake's text kinds are seeded from it)",
             "R1 typing judgement and R2 strict decoder are correct readings of spec/Candid.md",
-            "clause (d) is a soft bound (config.md: 'The depth bound is a soft limit'): present-opt/variant nesting <= 3*limit + acyclic choice depth of the type; vectors are not counted (governed by width)",
+            "clause (d) is a soft bound (config.md: 'The depth bound is a soft limit'): present-opt/variant nesting <= limit + 1 + acyclic choice depth of the type (the unchanged tree never exceeds max(limit, acyclic depth) in either tier); vectors are not counted (governed by width)",
             "root-level value/range/text/width keys and scoped tables are interpreted only by the implementation; the oracle does not predict which value is chosen, only that it inhabits the type",
         ],
         json!({"scope": sc.summary, "max_value_size_per_configuration": maxima, "failure_classes": classes, "machinery_errors": machinery}),
